@@ -194,12 +194,8 @@ func (c *Ctx) ruleObjectRules(rule string) {
 						if !isE || e.Index != 1 {
 							continue
 						}
-						for _, r2 := range *e.Referrers() {
-							if ifi, isIf := r2.(*ssa.If); isIf {
-								if c.edgeRejectsIdx(g, ifi.Block(), 1) {
-									ok = true
-								}
-							}
+						if c.falseRejects(g, e) {
+							ok = true
 						}
 					}
 				}
@@ -222,12 +218,8 @@ func (c *Ctx) ruleObjectRules(rule string) {
 						continue
 					}
 					for _, r := range *ta.Referrers() {
-						if e, isE := r.(*ssa.Extract); isE && e.Index == 1 {
-							for _, r2 := range *e.Referrers() {
-								if ifi, isIf := r2.(*ssa.If); isIf && c.edgeRejectsIdx(g, ifi.Block(), 1) {
-									ok = true
-								}
-							}
+						if e, isE := r.(*ssa.Extract); isE && e.Index == 1 && c.falseRejects(g, e) {
+							ok = true
 						}
 					}
 				}
@@ -1269,4 +1261,33 @@ func (c *Ctx) phasesOf(fn *ssa.Function) []*ssa.Function {
 		}
 	}
 	return out
+}
+
+// falseRejects: a branch on the verdict v (or on its negation, `case !ok:`) whose edge for "v is false" returns a
+// non-nil error.
+func (c *Ctx) falseRejects(g *ssa.Function, v ssa.Value) bool {
+	var rec func(x ssa.Value, negated bool, depth int) bool
+	rec = func(x ssa.Value, negated bool, depth int) bool {
+		if x.Referrers() == nil || depth > 3 {
+			return false
+		}
+		for _, r := range *x.Referrers() {
+			switch y := r.(type) {
+			case *ssa.If:
+				idx := 1
+				if negated {
+					idx = 0
+				}
+				if c.edgeRejectsIdx(g, y.Block(), idx) {
+					return true
+				}
+			case *ssa.UnOp:
+				if y.Op == token.NOT && rec(y, !negated, depth+1) {
+					return true
+				}
+			}
+		}
+		return false
+	}
+	return rec(v, false, 0)
 }
